@@ -88,3 +88,54 @@ def replay_g(acc: Acc, payload: dict, which: str) -> None:
         c09.check_rule(acc, base, 6, dg.g_strategies(), "replay", with_paths=True, terms_of=dg.brute_terms, empty=dg.brute_empty, payload=payload)
     else:
         c10.check_rule(acc, base, 6, dg.g_strategies(), with_paths=True, terms_of=dg.brute_terms, empty=dg.brute_empty, payload=payload)
+
+
+# ---------------------------------------------------------------------------
+# dedicated sub-run for the known finding D10: one-factor products
+
+
+def check_one_factor(acc: Acc, grammar_json) -> None:
+    """Search with a pack whose product strategy also factors one-symbol alternatives,
+    then count with the returned specification."""
+    from mc.search import GCfg, execute, call_site
+    from mc.specs import nz
+
+    g = tuple(tuple(tuple(a) for a in alts) for alts in grammar_json)
+    cfg = GCfg(g, (), "g+onefactor", "RuleDB")
+    payload = {"domain": "G1", "grammar": [[list(a) for a in alts] for alts in g]}
+    ex = execute(cfg, (), horizon=80)
+    acc.count("traces")
+    if ex.outcome == "exception":
+        acc.violation("one-factor-product", ex.site, cfg.sid(), f"search: {type(ex.exc).__name__}: {str(ex.exc)[:200]}", payload)
+        return
+    if ex.outcome != "spec":
+        return
+    try:
+        for n in range(6):
+            if nz(ex.spec.get_terms(n)) != nz(cfg.brute_terms(n)):
+                acc.violation("wrong-terms", "one-factor-product", cfg.sid(), f"size {n}", payload)
+                return
+    except AssertionError as e:
+        acc.violation("one-factor-product", call_site(e), cfg.sid(),
+                      f"counting with a specification that contains a one-factor product: {type(e).__name__} in {call_site(e)}", payload)
+        return
+    except Exception as e:  # noqa: BLE001
+        acc.violation("exception-while-counting", call_site(e), cfg.sid(), f"{type(e).__name__}: {str(e)[:200]}", payload)
+        return
+    acc.nt(("one-factor", cfg.sid()))
+
+
+def _worker_one_factor(arg) -> Acc:
+    acc = Acc()
+    for gj in arg:
+        check_one_factor(acc, gj)
+    dg._TREES.clear()
+    env.clear_library_caches()
+    return acc
+
+
+def run_one_factor(ctx: Ctx) -> None:
+    gs = [g for g in dg.grammars("one") if any(len(alt) == 1 for alts in g for alt in alts)]
+    ctx.bounds["one_factor_grammars"] = len(gs)
+    items = [[[list(a) for a in alts] for alts in g] for g in gs]
+    ctx.pmap(_worker_one_factor, [items[i : i + 20] for i in range(0, len(items), 20)])
